@@ -394,6 +394,7 @@ func TestRun(t *testing.T) {
 	retransmissionWriteFails(rec, vr.Scale(16, 600), seed)
 	ownIDMeetsAnsweredPeerID(rec, vr.Scale(12, 240))
 	lateResponseAfterExhaustion(rec, vr.Scale(18, 360))
+	serverSideConn(rec, vr.Scale(6, 60))
 	rec.Assume("start stamp of the pending entry lies in [time before the call, time after the first datagram was observed]; ticks are never placed inside that bracket +/- 1 min")
 	rec.Assume("'attempts exhausted' = a tick finds all MAX_RETRANSMIT copies already sent; an ACK delivered before that must make the call succeed, afterwards either outcome is accepted")
 	_ = pool.New
